@@ -333,6 +333,20 @@ func (c *Ctx) Define(prefix string, t Term) Term {
 	return v
 }
 
+// Name always introduces a constant for t (unless t is already an identifier): used where a term must be a
+// legal quantifier pattern (no ite).
+func (c *Ctx) Name(prefix string, t Term) Term {
+	if !strings.ContainsAny(t.S, "( ") {
+		return t
+	}
+	if strings.Contains(t.S, "!q") && !boundClosed(t.S) {
+		return t
+	}
+	v := c.Fresh(prefix, t.Sort)
+	c.facts = append(c.facts, "(assert (= "+v.S+" "+t.S+"))")
+	return v
+}
+
 func (c *Ctx) AddObligation(fn, kind, name string, pc, goal Term, pos string) *Obligation {
 	o := &Obligation{pc: pc, Name: name, Kind: kind, Func: fn, Goal: Implies(pc, goal), nSorts: len(c.sortDecls), nDecls: len(c.decls), nAxioms: len(c.axioms), nFacts: len(c.facts), ctx: c, Pos: pos}
 	c.Oblig = append(c.Oblig, o)
